@@ -50,9 +50,8 @@ CatChoices == UNION { { [attrs |-> at, rows |-> rw] : rw \in RowsOf(at) } : at \
 QSmall == { [attrs |-> <<"a", "b">>, rows |-> << <<"u", "v">>, <<"v", "v">> >>],
             [attrs |-> <<"b">>, rows |-> << <<"u">> >>] }
 QChoices == IF QFull THEN CatChoices ELSE QSmall
-Files == { pq \in UNION { [S -> CatChoices \cup QChoices] : S \in SUBSET Cats } :
-             /\ "p" \in DOMAIN pq => pq["p"] \in CatChoices
-             /\ "q" \in DOMAIN pq => pq["q"] \in QChoices }
+Files == {<<>>} \cup { ("p" :> c) : c \in CatChoices } \cup { ("q" :> d) : d \in QChoices }
+         \cup { ("p" :> c) @@ ("q" :> d) : c \in CatChoices, d \in QChoices }
 OpItems == {"a", "b", "c"}
 Alphas == { <<"X", "Y", "Z">>, <<"v", "u", "w">> }
 Ops == { [kind |-> "copy", cat |-> "p", from |-> f, to |-> t, alpha |-> <<>>] : f \in OpItems, t \in OpItems }
@@ -175,7 +174,7 @@ Untouched ==
 FrameAction == [][Untouched]_doc
 
 \* ------------------------------------------------------------ invariants (library phase)
-LibDone == phase = "cli"
+LibDone == phase = "cli" /\ pc = "call"     \* libret is final from here on; judged once per behaviour
 I == AbsDoc(file)
 Rewritten == libret.text[1] = "rewritten"
 O == AbsDoc(libret.text[2])
@@ -196,13 +195,13 @@ ModelMatchesExpected ==
   Edited => O = Expected(I, op) /\ MapPairs(libret.mapping) = ExpectedMapPairs(I, op)
 \* lemma: the declarative expectation used on traces satisfies every clause
 ExpectedSatisfiesClauses ==
-  pc = "call" /\ phase = "lib" /\ ~Missing(I, op) =>
+  pc = "read" /\ phase = "lib" /\ ~Missing(I, op) =>     \* judged once per behaviour, by a worker
      AllClauses(I, Expected(I, op), op, ExpectedMapPairs(I, op))
 \* lemma: the clauses pin the document down: every one-cell corruption of the expected
 \* document is rejected by some clause
 CorruptCell(F, n, r, a) == [F EXCEPT ![n] = [@ EXCEPT ![r] = [@ EXCEPT ![a] = "#corrupt#"]]]
 ClausesRejectCorruption ==
-  pc = "call" /\ phase = "lib" /\ ~Missing(I, op) =>
+  pc = "read" /\ phase = "lib" /\ ~Missing(I, op) =>     \* judged once per behaviour, by a worker
      LET E == Expected(I, op) IN
      \A n \in DOMAIN E : \A r \in DOMAIN E[n] : \A a \in DOMAIN E[n][r] :
         ~AllClauses(I, CorruptCell(E, n, r, a), op, ExpectedMapPairs(I, op))
